@@ -10,6 +10,7 @@ import (
 	"runtime"
 	"sort"
 	"strconv"
+	"strings"
 	"sync"
 	"time"
 
@@ -72,7 +73,7 @@ func Init() {
 	initOnce.Do(func() {
 		rootDir = os.Getenv("VERIF_WSX_ROOT")
 		if rootDir == "" {
-			d, err := os.MkdirTemp("", "wsx-")
+			d, err := ScratchDir("wsx")
 			if err != nil {
 				panic(err)
 			}
@@ -89,6 +90,42 @@ func Init() {
 		logger.LoggerInstance = lg
 		tsx.SetLoot(filepath.Join(rootDir, "loot"))
 	})
+}
+
+// ScratchDir makes the per-process working directory of a teamserver.  Every session /
+// listener change is a synchronous sqlite commit; on a disk-backed /tmp that fsync
+// dominates the cost of a case, so the directory is put on tmpfs (/dev/shm) when that
+// exists.  The name carries the creating pid; directories of dead processes (a run
+// that was killed) are swept first.
+func ScratchDir(prefix string) (string, error) {
+	base := os.TempDir()
+	if st, err := os.Stat("/dev/shm"); err == nil && st.IsDir() {
+		if f, err := os.CreateTemp("/dev/shm", "wsx-probe-"); err == nil {
+			f.Close()
+			os.Remove(f.Name())
+			base = "/dev/shm"
+		}
+	}
+	if ents, err := os.ReadDir(base); err == nil {
+		for _, e := range ents {
+			var pfx string
+			var pid int
+			n := e.Name()
+			if i := strings.Index(n, "-p"); i > 0 && (strings.HasPrefix(n, "wsx-p") || strings.HasPrefix(n, "wsxw-p")) {
+				pfx = n[:i]
+				rest := n[i+2:]
+				if j := strings.Index(rest, "-"); j > 0 {
+					pid, _ = strconv.Atoi(rest[:j])
+				}
+			}
+			if pfx != "" && pid > 0 {
+				if _, err := os.Stat(fmt.Sprintf("/proc/%d", pid)); os.IsNotExist(err) {
+					os.RemoveAll(filepath.Join(base, n))
+				}
+			}
+		}
+	}
+	return os.MkdirTemp(base, fmt.Sprintf("%s-p%d-", prefix, os.Getpid()))
 }
 
 // Cleanup removes the temp dir if this process created it.
@@ -219,7 +256,13 @@ func (f *Fixture) Release(dirty bool) {
 		c.Join()
 	}
 	f.clients = nil
-	if dirty || !f.Quiesce(3*time.Second) {
+	q := dirty || f.Quiesce(3*time.Second)
+	if !q && os.Getenv("VERIF_WSX_DEBUG") != "" {
+		buf := make([]byte, 1<<20)
+		n := runtime.Stack(buf, true)
+		fmt.Fprintf(os.Stderr, "NOT QUIESCENT baseline=%d now=%d\n%s\n", f.baseline, runtime.NumGoroutine(), buf[:n])
+	}
+	if dirty || !q {
 		f.L.Close()
 		if cur == f {
 			cur = nil
